@@ -433,6 +433,8 @@ func snapshot(jail string) []string {
 		}
 		if d.IsDir() {
 			out = append(out, hxs(p)+":d")
+		} else if d.Type()&fs.ModeSymlink != 0 {
+			out = append(out, hxs(p)+":l") // a link's size is the length of its target path, which names the jail
 		} else {
 			fi, _ := d.Info()
 			var sz int64
